@@ -233,6 +233,11 @@ fn campaign(a: &Args, rng: &mut Rng, rep: &mut Report, sink: &mut Sink) {
                 bgs.push(random_position(rng, dens, true, false).0);
             }
             feat::single_feature(rng, &bgs, 250, rep, sink);
+            // reached states (incremental hashes) against their from-scratch neighbours
+            rep.c17_neighbours = true;
+            run_motifs(rng, 400 * sc, 6, rep, sink, none);
+            run_positions(rng, 40 * sc, &[6, 14, 26], &[Policy::Capture, Policy::PushPull, Policy::Uniform], 40, true, rep, sink, none);
+            rep.c17_neighbours = false;
         }
         _ => {
             // C18, C20 have their own binaries; as a trace they get a general mix
